@@ -11,7 +11,7 @@ PROPS = {
         "pkg": "c13", "env": {"SIM_PROP": "C13"},
         "tierb": {"pkg": "stk", "legs": ["udp", "ssh", "quic/mem", "p2pke/udp", "quic/udp"], "runs": {"quick": 80, "thorough": 1500}, "budget": {"quick": 240, "thorough": 700}},
         "legs": ["tellhub", "askhub", "queue"],
-        "runs": {"quick": 6000, "thorough": 400000},
+        "runs": {"quick": 20000, "thorough": 400000},
         "budget": {"quick": 150, "thorough": 700},
         "rule": "one run = one seed = one schedule of 1-3 producers, 1-4 receivers, cancellers and an optional closer on one real TellHub/AskHub/Queue; "
                 "every channel operation and lock in hubs.go/queue.go is a scheduling point and the seeded scheduler picks who runs; "
@@ -62,7 +62,7 @@ PROPS["C02"] = {
 PROPS["C03"] = {
     "pkg": "sess", "engine": "seqsim", "env": {"SIM_PROP": "C03"},
     "legs": ["active"],
-    "runs": {"quick": 12000, "thorough": 600000},
+    "runs": {"quick": 30000, "thorough": 600000},
     "budget": {"quick": 150, "thorough": 700},
     "rule": "as C02 leg active: in addition an attacker with its own key speaks the wire protocol through its own noise state in both roles: honest, stolen (replayed) timestamp claim, victim key with attacker signature, wrong-purpose signature, garbage, stolen channel-binding signature from another handshake, early data, data under attacker keys; "
             "after every action every honest session that is usable (IsReady, returned application data, or Send succeeded) must report a remote key whose owner demonstrably took part in this very handshake (mutual acceptance of genuine handshake messages, or the attacker's own key); non-trivial/distinct as C02",
@@ -100,7 +100,7 @@ PROPS["C19"] = {
 }
 PROPS["C20"] = {
     "pkg": "kad", "engine": "seqsim", "env": {"SIM_PROP": "C20"}, "legs": ["honest", "adversarial", "adversarial"],
-    "runs": {"quick": 4000, "thorough": 300000}, "budget": {"quick": 150, "thorough": 700},
+    "runs": {"quick": 16000, "thorough": 300000}, "budget": {"quick": 150, "thorough": 700},
     "rule": "one run = one simulated network of 3-30 (thorough: up to 200) real DHTNodes with random or dense ids, random links, then 3-14 operations (find node, join, put, get, crash/restart, churn) from random origins with 0..N initial peers; the Ask callbacks are the network: per-call loss, crashed nodes, and (leg adversarial) 1-3 responders returning self/asker/target, cyclic and duplicated lists, 10^4-entry lists, fabricated ever-closer ids; "
             "non-trivial = some operation made more than one ask; distinct = distinct traces",
     "components": KAD,
@@ -170,7 +170,7 @@ PROPS["C12"] = {
 PROPS["C10"] = {
     "pkg": "stk", "env": {"SIM_PROP": "C10"},
     "legs": ["frag/sim", "mbapp/sim", "frag/frag/sim", "wl/mbapp/sim", "askmux-varint/mbapp/sim", "map/frag/sim", "mux-string/frag/sim", "frag/sim", "mbapp/sim"],
-    "runs": {"quick": 1800, "thorough": 120000}, "budget": {"quick": 240, "thorough": 700},
+    "runs": {"quick": 8000, "thorough": 120000}, "budget": {"quick": 240, "thorough": 700},
     "rule": "one run = the fragmenting swarm or the message-box swarm (and nestings) receiving from 2-4 sources, each with 1-3 concurrent senders of 1-4 messages of 0-13 fragments; the simulator is the inner transport: per-fragment loss, duplication, arbitrary delivery order across messages and sources, clock advances of up to 61 s between deliveries so that partial reassembly state is garbage-collected and re-created; inner MTU 40-200, workers 1-4; "
             "inner datagrams are attributed to ledger messages by content to measure reach (reassembled out of order / with duplicate fragments / incomplete never delivered); non-trivial = a multi-fragment message was reassembled and a fault fired; distinct = distinct scheduler decision traces",
     "components": TIER_A,
@@ -182,7 +182,7 @@ PROPS["C10"] = {
 PROPS["C15"] = {
     "pkg": "stk", "env": {"SIM_PROP": "C15"},
     "legs": ["string/tell/sim", "string/ask/mem", "string/ask/mbapp-sim", "varint/tell/sim", "varint/ask/mem", "u16/tell/sim", "u16/ask/mem", "u32/tell/mem", "u32/ask/mem", "u64/tell/sim", "u64/ask/mbapp-sim", "string/tell/mem", "varint/tell/frag-sim"],
-    "runs": {"quick": 2600, "thorough": 150000}, "budget": {"quick": 200, "thorough": 700},
+    "runs": {"quick": 10000, "thorough": 150000}, "budget": {"quick": 200, "thorough": 700},
     "rule": "one run = one multiplexer kind (string, varint, 16/32/64-bit; tell, ask and secure variants) on 2-3 nodes with 2-5 simultaneously open channels drawn from extremes (empty string, 127/128-byte strings, strings that are prefixes of each other or look like length prefixes, 0, maximal integers, integers whose encodings are prefixes of others), some channels open on one node only; concurrent tells and asks on every channel, payloads include empty ones and ones that start like a header; "
             "non-trivial = something was delivered or served, more than one channel, several tasks runnable; distinct = distinct scheduler decision traces",
     "components": TIER_A,
@@ -214,7 +214,7 @@ CHN = {
 }
 PROPS["C07"] = {
     "pkg": "chn", "env": {"SIM_PROP": "C07"}, "legs": ["heal", "heal", "restart", "steady"],
-    "runs": {"quick": 1600, "thorough": 150000}, "budget": {"quick": 240, "thorough": 700},
+    "runs": {"quick": 8000, "thorough": 150000}, "budget": {"quick": 240, "thorough": 700},
     "rule": "one run = two real Channels with per-run timers (handshake backoff 50-250 ms, keep-alive 1-3 s, rekey 1-8 s, reject 2-24 s) over the simulated network; leg heal: 1-2 pending Sends per side with seeded relative timing, an adversarial prefix over the first 1-8 channel messages (drop, duplicate, reorder, delay across timer firings), then prompt in-order loss-free delivery; leg restart: the peer is replaced by a fresh Channel with the same key after 0-5 delivered handshake messages; leg steady: an established channel under two-way traffic every keep-alive/3 for 3-7 rekey periods; "
             "non-trivial = a Send completed and (heal/restart) a fault fired; distinct = distinct scheduler decision traces",
     "components": CHN,
@@ -225,7 +225,7 @@ PROPS["C07"] = {
 
 PROPS["C05"] = {
     "pkg": "chn", "env": {"SIM_PROP": "C05"}, "legs": ["predicates", "predicates", "foreign"],
-    "runs": {"quick": 1500, "thorough": 150000}, "budget": {"quick": 240, "thorough": 700},
+    "runs": {"quick": 6000, "thorough": 150000}, "budget": {"quick": 240, "thorough": 700},
     "rule": "one run = two real Channels with per-run acceptance predicates (accept all / none / only the peer's key / all but the peer's key) and short timers (rekey 1-4 s), both sides sending from the start (simultaneous initiation) or one only, repeated Sends across rekeys, WaitReady; leg foreign adds a third real Channel with another key that handshakes with A while receiving copies of everything A sends, before or after A and B are established; network drop/duplicate/reorder and all interleavings from the seed; "
             "non-trivial = several acceptance checks were evaluated and several tasks were runnable at once; distinct = distinct scheduler decision traces",
     "components": CHN,
